@@ -185,10 +185,10 @@ func init() {
 			"composite type into wrapAny, and no type that is fixed still contains the open type of an empty literal — the classes behind the confirmed " +
 			"internal-error panics (R-FIXED, R-CONCRETE); lexing and parsing terminate: the token/rune position only moves forward, every token-driven loop " +
 			"makes progress on every path around it, no recursion is reachable without progress, and loops leave at the end of the input (R-PROGRESS); the main " +
-			"pass runs only after an error-free signature pre-pass, whose nil types it would dereference (R-PARSEGATE).",
-		NotDecided:  "Index ranges in general, nil values that travel through fields other than the signature types, stack depth for deeply nested input, and that line/column are correct (position arithmetic is value-level).",
+			"pass runs only after an error-free signature pre-pass, whose nil types it would dereference (R-PARSEGATE); a diagnostic computed from a token that was already stepped past is located at that token, not at the current one (R-ERRLOC).",
+		NotDecided:  "Index ranges in general, nil values that travel through fields of nodes built elsewhere, stack depth for deeply nested input, and that line/column arithmetic in the lexer is correct (value-level).",
 		Assumptions: []string{"field-borne nils are not tracked"},
-		Rules:       []*Rule{ruleNilRet, ruleScopeType, ruleFixed, ruleConcrete, ruleLexBound, ruleIndexGuard, ruleProgress, ruleParseGate},
+		Rules:       []*Rule{ruleNilRet, ruleScopeType, ruleFixed, ruleConcrete, ruleLexBound, ruleIndexGuard, ruleProgress, ruleParseGate, ruleErrLoc},
 	})
 	Register(&Property{
 		ID: "C04",
@@ -280,10 +280,10 @@ func init() {
 			"interface go through the matching transform and x/y siblings are computed symmetrically; style methods flush pending shapes before " +
 			"the pen changes and set their attributes unconditionally; each drawing method queues exactly one element on every path; Push consults " +
 			"an element's own attributes; grid steps are validated; no style value is dead-stored; bytes reach the writer only through the XML " +
-			"encoder and no string field is raw inner XML; the graphics built-ins agree with their declarations (R-BUILTINSIG).",
+			"encoder and no string field is raw inner XML; the graphics built-ins agree with their declarations (R-BUILTINSIG); `evy run` has no deferred work pending when it exits, so the SVG file is complete also for a program that ends with an error or with exit (R-EXITDEFER).",
 		NotDecided:  "The grouping outcome for arbitrary style histories beyond these clauses, numeric formatting, the sign flip of the y extent in Rect.",
 		Assumptions: []string{},
-		Rules:       []*Rule{ruleSVG, ruleBuiltinSig},
+		Rules:       []*Rule{ruleSVG, ruleBuiltinSig, ruleExitDefer},
 	})
 }
 
